@@ -20,6 +20,7 @@ REQUIRED_THEOREMS = [
     "TapkeeVerif.Tsne.P_dense_sum_one",
     "TapkeeVerif.Tsne.P_dense_symm",
     "TapkeeVerif.Tsne.sqDistance_not_metric",
+    "TapkeeVerif.Tsne.bh_neighbours_true",
     "TapkeeVerif.Tsne.bh_neighbours_witness",
     "TapkeeVerif.Tsne.symmetrizeCsr_small_partial",
     "TapkeeVerif.Tsne.gradient_identity",
